@@ -240,7 +240,7 @@ fn rd_of(m: &HashMap<String, String>) -> Rd {
     }
 }
 
-type R3 = (String, String, usize);
+type R3 = (String, String, usize, u64);
 fn with_reader<F>(rd: Rd, data: Vec<u8>, f: F) -> R3
 where
     F: FnOnce(&mut dyn BufRead) -> Result<(), String>,
@@ -256,30 +256,30 @@ where
         Rd::Frag(sizes, fail) => {
             let mut r = FragReader::new(data, sizes, fail);
             let (v, w) = run(f, &mut r);
-            (v, w, r.pos)
+            (v, w, r.pos, r.refills)
         }
         Rd::Slice => {
             let mut s: &[u8] = &data[..];
             let (v, w) = run(f, &mut s);
-            (v, w, total - s.len())
+            (v, w, total - s.len(), 0)
         }
         Rd::Cursor => {
             let mut c = Cursor::new(&data[..]);
             let (v, w) = run(f, &mut c);
-            (v, w, c.position() as usize)
+            (v, w, c.position() as usize, 0)
         }
         Rd::Buf(cap) => {
             let mut b = BufReader::with_capacity(cap, &data[..]);
             let (v, w) = run(f, &mut b);
             let left = b.buffer().len() + b.get_ref().len();
-            (v, w, total - left)
+            (v, w, total - left, 0)
         }
     }
 }
 
 fn finish_line(sink: &SharedSink, r: R3) -> String {
     let s = sink.0.borrow();
-    format!("{} out={} pos={} fl={} why={}", r.0, hex(&s.out), r.2, s.flushes, r.1)
+    format!("{} out={} pos={} fl={} why={} rc={} wc={}", r.0, hex(&s.out), r.2, s.flushes, r.1, r.3, s.calls)
 }
 
 fn run_case(line: &str) -> String {
